@@ -22,8 +22,9 @@ open Rubato Rubato.Gen
 /-- the table is built with `f_cutoff` when up-sampling and `f_cutoff·ratio` when down-sampling, i.e. `f_cutoff·min(1, ratio)` -/
 theorem effective_cutoff (fcut ratio : ℚ) :
     interpCutoff fcut ratio = if 1 ≤ ratio then fcut else fcut * ratio := by
-  unfold interpCutoff
-  simp only [Bridge.ge_eq, Bridge.one_eq, decide_eq_true_eq, Bridge.mul32_eq, Bridge.n32_eq]
+  unfold interpCutoff Formulas.mkInterp_f_cutoff
+  simp only [Bridge.ge_eq, Bridge.lit_eq, decide_eq_true_eq, Bridge.mul32_eq, Bridge.n32_eq]
+  norm_num
 
 theorem cutoff_in_unit_interval (n : ℕ) (w : Window) (hn : 1 ≤ n) :
     0 < Win.calculate_cutoff (ρ := ℚ) (σ := ℚ) n w ∧ Win.calculate_cutoff (ρ := ℚ) (σ := ℚ) n w < 1 :=
